@@ -11,11 +11,32 @@
    TensorMut "lens" behaviour and then, with no further hypothesis, for every `constructed` source
    (Proofs/SrcWfP.v, Proofs/SrcLensP.v: the contract is proved by induction on the source term).
    The matrix owning iterators likewise: generic lens family, then every well-formed matrix
-   source term (Matrix, MatrixRange incl. empty, MatrixReverse — Proofs/C09MatOwnedP.v). *)
+   source term (Matrix, MatrixRange incl. empty, MatrixReverse — Proofs/C09MatOwnedP.v).
+   Second extension wave (the C09_any_source_*, C09_c02_view_*, C09_c12_* theorems at the end):
+   Model/IterG.v states the iterators once over an ABSTRACT source (place iterator + get/set =
+   the unchecked getters); Proofs/C09GenP.v proves enumeration in row-major order of the view
+   shape, exact lengths at every prefix, WithIndex, fusedness, distinct places, "owning iterators
+   move each value out once" for any source meeting the TensorRef/TensorMut resp.
+   MatrixRef/MatrixMut contract; Proofs/C09ViewsP.v proves that EVERY constructed view of the C02
+   algebra (TensorIndex, TensorExpansion, TensorStack, TensorChain, wrappers, matrix-backed
+   leaves) and every C12 matrix view (partition parts, quadrants, ranges, reversals, tensor round
+   trips) meets those hypotheses — mutable iterators hand out pairwise distinct STORED elements by
+   C02's injectivity resp. C12's stack injectivity / partition disjointness.  Correspondence: ops
+   (9 5 ..) / (9 6 ..) run the same generic transcription over C02 view terms / C12 view stacks.
+   Provided Iterator methods (after round-4 seed C09-v2, an `nth` override that forgot to mark the
+   iterator finished): Model/IterProg.v gives nth / skip / step_by / take / count / last / fold
+   their std default semantics over the modelled next(); Proofs/C09ProgP.v: a program of nth calls
+   reads the closed form at the running positions (C09_nth_program) and after ANY script the
+   iterator is on a state plain next() calls reach, so exact lengths and fusedness hold at every
+   point of every such history (C09_after_any_script_exact_and_fused); op (9 7 script ..) drives
+   every iterator family and API form by such scripts. *)
 From Coq Require Import List ZArith NArith Bool Arith.
 From EasyML Require Import Base.Sx Model.Shape Model.Tensor Model.TSource Model.ShapeIter
   Model.MatrixIter Model.Transform Proofs.ShapeP Proofs.C01P Proofs.OdometerP Proofs.C09P
   Proofs.C09OwnedP Proofs.C09MatOwnedP Proofs.C13P Proofs.SrcWfP Proofs.SrcLensP Proofs.C13CtorP.
+From EasyML Require Import Model.MatrixViews Model.MatrixAccess Model.IterG Model.IterProg Proofs.C09GenP
+  Proofs.C09ViewsP Proofs.C09ProgP Proofs.C12P Proofs.C12Partition.
+From EasyML Require Model.Views Proofs.C02P Proofs.C02Inj.
 Import ListNotations.
 Open Scope N_scope.
 
@@ -295,6 +316,315 @@ Example C09_nonvacuous_matrix_owned :
     [1; 0; 0; 4; 0; 6]%Z.
 Proof. cbv zeta. split; [vm_compute; repeat split; (reflexivity || (right; discriminate))|]. vm_compute. repeat split; reflexivity. Qed.
 
+(* ================= second extension wave: iterators over ANY source =================
+   Model/IterG.v writes the iterators once against an abstract source: an iterator is a place
+   iterator (ShapeIterator; the row-/column-major counters; the Range of the line iterators) plus
+   `get` = get_reference_unchecked and `set` = a write through get_reference_unchecked_mut.  The
+   term-level iterators above are instances (C09_term_iterators_are_instances); the same
+   transcription runs over every constructed view of the C02 algebra (`cview_source`: TensorIndex,
+   TensorExpansion, TensorStack, TensorChain, wrappers, matrix-backed leaves, any depth) and over
+   every C12 matrix view (`mview_source`: partition parts, quadrants, ranges, reversals, tensor
+   round trips, MatrixRefTensor over tensor views — reached through their UNCHECKED getters). *)
+
+(* --- tensor iterators over any source `o`, any state `s` of it --- *)
+(* enumerates each element of the source once, in row-major order of the VIEW shape, fused *)
+Theorem C09_any_source_tensor_iter_enumerates : forall St A (o : tsource St A) (s : St) m,
+  let all := all_indexes (lens_of (ts_shape o s)) in
+  map fst (fst (drive (gti_next o) gti_len (length all + m) (gti_from o s))) =
+  map (fun idx => Some (idx, ts_get o s idx)) all ++ repeat None m.
+Proof. exact @gen_tensor_iter_enumerates. Qed.
+
+(* the exact remaining length before the first call and after every call *)
+Theorem C09_any_source_tensor_iter_len_after_k : forall St A (o : tsource St A) (s : St) k,
+  gti_len (gti_from o s) = elements (ts_shape o s) /\
+  map snd (fst (drive (gti_next o) gti_len k (gti_from o s))) =
+  map (fun j => elements (ts_shape o s) - N.of_nat (S j)) (seq 0 k).
+Proof. exact @gen_tensor_iter_len_after. Qed.
+
+Theorem C09_any_source_with_index_true : forall St A (o : tsource St A)
+  (it it' : giter shape_iter St) index place v,
+  gti_with_index (gti_next o) it = (Some (index, (place, v)), it') -> index = place.
+Proof. exact @gen_with_index_true. Qed.
+
+Theorem C09_any_source_with_index_true_owned : forall St A (o : tsource St A) dflt
+  (it it' : giter shape_iter St) index place v,
+  gti_with_index (gti_next_owned o dflt) it = (Some (index, (place, v)), it') -> index = place.
+Proof. exact @gen_with_index_true_owned. Qed.
+
+(* the indexes handed to get_reference_unchecked(_mut) by the first k calls are the first k
+   indexes of the row-major enumeration: inside the view shape and pairwise distinct *)
+Theorem C09_any_source_places : forall St A (o : tsource St A) (s : St) k,
+  let places := map fst (somes (map fst (fst (drive (gti_next o) gti_len k (gti_from o s))))) in
+  places = firstn k (all_indexes (lens_of (ts_shape o s))) /\ NoDup places /\
+  Forall (fun idx => in_range idx (lens_of (ts_shape o s))) places.
+Proof.
+  exact (fun St A o s k => conj (gen_tensor_iter_places o s k)
+                                (conj (gen_tensor_iter_distinct o s k) (gen_tensor_iter_places_in_shape o s k))).
+Qed.
+
+(* owning iterator over any source meeting the TensorMut contract (an in-range write succeeds, is
+   read back, changes no other in-range index, keeps the invariant P): the items are those the
+   SHARED iterator yields over the untouched source — each original value exactly once, in order —
+   and after k calls exactly the first k indexes read the placeholder *)
+Theorem C09_any_source_owned_moves_once : forall St A (o : tsource St A) (dflt : A)
+  (P : St -> Prop) (sh : shape),
+  (forall s idx v, P s -> in_range idx (lens_of sh) ->
+     exists s', ts_set o s idx v = Some s' /\ P s' /\ ts_get o s' idx = Some v /\
+                forall idx', in_range idx' (lens_of sh) -> idx' <> idx ->
+                             ts_get o s' idx' = ts_get o s idx') ->
+  forall (s : St) k, P s -> ts_shape o s = sh ->
+  let r := drive (gti_next_owned o dflt) gti_len k (gti_from o s) in
+  fst r = fst (drive (gti_next o) gti_len k (gti_from o s)) /\
+  P (gi_source (snd r)) /\
+  forall x, in_range x (lens_of sh) ->
+    ts_get o (gi_source (snd r)) x = if flat x (lens_of sh) <? N.of_nat k then Some dflt else ts_get o s x.
+Proof. exact @gen_owned_moves_once. Qed.
+
+(* the term-level iterators of Model/ShapeIter.v / Model/MatrixIter.v ARE the generic ones *)
+Theorem C09_term_iterators_are_instances : forall A,
+  (forall (s : tsrc A) k,
+     fst (drive ti_next ti_len k (tensor_iter_from s)) =
+     fst (drive (gti_next tsrc_source) gti_len k (gti_from tsrc_source s))) /\
+  (forall dflt k (it : tensor_iter A),
+     drive (gti_next_owned tsrc_source dflt) gti_len k (gi_of_ti it) =
+     (fst (drive (ti_next_owned dflt) ti_len k it), gi_of_ti (snd (drive (ti_next_owned dflt) ti_len k it)))) /\
+  (forall rm (s : msrc A) k,
+     fst (drive mi_next mi_len k (major_iter_from rm s)) =
+     fst (drive (gmi_next msrc_source) gmi_len k (gmi_from msrc_source rm s))).
+Proof.
+  exact (fun A => conj (@tensor_iter_is_generic A) (conj (@ti_owned_is_generic A) (@major_iter_is_generic A))).
+Qed.
+
+(* --- every constructed C02 view meets the hypotheses (store = leaf storage covering the leaves) --- *)
+(* enumeration in row-major order of the VIEW shape; every element present (never an out-of-bounds
+   unchecked access), resolved to one stored element of one leaf *)
+Theorem C09_c02_view_iter_enumerates : forall A v c, Views.v_ctor v = Ok c -> C02P.usize_view c ->
+  forall (st : N * N -> option A) m, covers c st ->
+  let all := all_indexes (lens_of (Views.c_shape c)) in
+  map fst (fst (drive (gti_next (cview_source c)) gti_len (length all + m) (gti_from (cview_source c) st))) =
+  map (fun idx => Some (idx, ts_get (cview_source c) st idx)) all ++ repeat None m /\
+  Forall (fun idx => exists e x, Views.c_get c idx = Some e /\ st e = Some x /\
+                                 ts_get (cview_source c) st idx = Some x) all.
+Proof. exact @cview_iter_enumerates. Qed.
+
+Theorem C09_c02_view_len_after_k : forall A c (st : N * N -> option A) k,
+  gti_len (gti_from (cview_source c) st) = elements (Views.c_shape c) /\
+  map snd (fst (drive (gti_next (cview_source c)) gti_len k (gti_from (cview_source c) st))) =
+  map (fun j => elements (Views.c_shape c) - N.of_nat (S j)) (seq 0 k).
+Proof. exact @cview_iter_len_after. Qed.
+
+(* mutable iterators: the references of any prefix point at pairwise distinct STORED elements —
+   by C02's injectivity (distinct leaves) *)
+Theorem C09_c02_view_mut_distinct_elements : forall A v c, Views.v_ctor v = Ok c ->
+  C02P.usize_view c -> NoDup (C02Inj.leaf_ids c) -> forall (st : N * N -> option A) k,
+  let places := map fst (somes (map fst (fst (drive (gti_next (cview_source c)) gti_len k
+                                                    (gti_from (cview_source c) st))))) in
+  NoDup (map (Views.c_get c) places) /\
+  Forall (fun idx => exists e, Views.c_get c idx = Some e) places.
+Proof. exact @cview_mut_distinct_elements. Qed.
+
+(* a write through a constructed view behaves like a lens on the indexes of its shape *)
+Theorem C09_c02_view_meets_mut_contract : forall A v c, Views.v_ctor v = Ok c ->
+  C02P.usize_view c -> NoDup (C02Inj.leaf_ids c) -> forall (st : N * N -> option A) idx x,
+  covers c st -> in_range idx (lens_of (Views.c_shape c)) ->
+  exists st', ts_set (cview_source c) st idx x = Some st' /\ covers c st' /\
+              ts_get (cview_source c) st' idx = Some x /\
+              forall idx', in_range idx' (lens_of (Views.c_shape c)) -> idx' <> idx ->
+                           ts_get (cview_source c) st' idx' = ts_get (cview_source c) st idx'.
+Proof. exact @cview_lens. Qed.
+
+(* owning iterators over a constructed view: each original element is moved out exactly once, in
+   row-major order of the view shape; only placeholders are left at the first k indexes *)
+Theorem C09_c02_view_owned_moves_once : forall A v c, Views.v_ctor v = Ok c ->
+  C02P.usize_view c -> NoDup (C02Inj.leaf_ids c) ->
+  forall (dflt : A) (st : N * N -> option A) k, covers c st ->
+  let r := drive (gti_next_owned (cview_source c) dflt) gti_len k (gti_from (cview_source c) st) in
+  fst r = fst (drive (gti_next (cview_source c)) gti_len k (gti_from (cview_source c) st)) /\
+  covers c (gi_source (snd r)) /\
+  forall x, in_range x (lens_of (Views.c_shape c)) ->
+    ts_get (cview_source c) (gi_source (snd r)) x =
+    if flat x (lens_of (Views.c_shape c)) <? N.of_nat k then Some dflt else ts_get (cview_source c) st x.
+Proof. exact @cview_owned_moves_once. Qed.
+
+(* --- matrix iterators over any source --- *)
+Theorem C09_any_source_major_iter : forall St A (o : msource St A) rm (s : St) k,
+  let rows := mo_rows o s in let cols := mo_cols o s in
+  fst (drive (gmi_next o) gmi_len k (gmi_from o rm s)) =
+  map (fun j => cexpected (rows * cols)
+                 (fun q => let p := mi_place rm rows cols q in (p, mo_get o s p)) (N.of_nat j)) (seq 0 k)
+  /\ gmi_len (gmi_from o rm s) = rows * cols.
+Proof. exact @gen_major_iter_spec. Qed.
+
+(* single column / row / diagonal: the constructors accept exactly the existing column / row *)
+Theorem C09_any_source_line_iter : forall St A (o : msource St A) (s : St),
+  (forall column, gli_column o s column =
+     if (0 <? mo_rows o s) && (column <? mo_cols o s)
+     then Ok (mkGI (mkLC LColumn column (0, mo_rows o s)) s) else Panic) /\
+  (forall row, gli_row o s row =
+     if (row <? mo_rows o s) && (0 <? mo_cols o s)
+     then Ok (mkGI (mkLC LRow row (0, mo_cols o s)) s) else Panic) /\
+  gli_diagonal o s = mkGI (mkLC LDiagonal 0 (0, N.min (mo_rows o s) (mo_cols o s))) s /\
+  forall kind fixed n k,
+    fst (drive (gli_next o) gli_len k (mkGI (mkLC kind fixed (0, n)) s)) =
+    map (fun j => cexpected n (fun q => let p := lc_place (mkLC kind fixed (0, n)) q in (p, mo_get o s p))
+                   (N.of_nat j)) (seq 0 k)
+    /\ gli_len (mkGI (mkLC kind fixed (0, n)) s) = n.
+Proof.
+  intros St A o s. split; [|split; [|split; [reflexivity|]]].
+  - intros column. unfold gli_column, lc_column. destruct ((0 <? mo_rows o s) && (column <? mo_cols o s)); reflexivity.
+  - intros row. unfold gli_row, lc_row. destruct ((row <? mo_rows o s) && (0 <? mo_cols o s)); reflexivity.
+  - intros kind fixed n k. exact (gen_line_iter_spec o kind fixed n s k).
+Qed.
+
+Theorem C09_any_source_major_with_index_true : forall St A (o : msource St A)
+  (it it' : giter mcounters St) index place v,
+  gmi_with_index (gmi_next o) it = (Some (index, (place, v)), it') -> index = place.
+Proof. exact @gen_major_with_index_true. Qed.
+
+Theorem C09_any_source_major_with_index_true_owned : forall St A (o : msource St A) dflt
+  (it it' : giter mcounters St) index place v,
+  gmi_with_index (gmi_next_owned o dflt) it = (Some (index, (place, v)), it') -> index = place.
+Proof. exact @gen_major_with_index_true_owned. Qed.
+
+Theorem C09_any_source_matrix_owned_moves_once : forall St A (o : msource St A) (dflt : A)
+  (P : St -> Prop) (rows cols : N),
+  (forall s p v, P s -> fst p < rows /\ snd p < cols ->
+     exists s', mo_set o s p v = Some s' /\ P s' /\ mo_get o s' p = Some v /\
+                forall p', fst p' < rows /\ snd p' < cols -> p' <> p -> mo_get o s' p' = mo_get o s p') ->
+  forall rm (s : St) k, P s -> mo_rows o s = rows -> mo_cols o s = cols ->
+  let r := drive (gmi_next_owned o dflt) gmi_len k (gmi_from o rm s) in
+  fst r = fst (drive (gmi_next o) gmi_len k (gmi_from o rm s)) /\
+  P (gi_source (snd r)) /\
+  forall q, q < rows * cols ->
+    mo_get o (gi_source (snd r)) (mi_place rm rows cols q) =
+    if q <? N.of_nat k then Some dflt else mo_get o s (mi_place rm rows cols q).
+Proof. exact @gen_matrix_owned_moves_once. Qed.
+
+(* --- every C12 matrix view as the source (reached through its unchecked getters) --- *)
+(* row-/column-major iterators over any well-formed view, empty ones (0xN, Nx0, 0x0 parts)
+   included: every call, every length; every element present and equal to the checked read *)
+Theorem C09_c12_view_major_iter : forall (T : Type) v len, wf len v -> forall rm (data : list T) k,
+  N.of_nat (length data) = len ->
+  let rows := view_rows v in let cols := view_cols v in
+  fst (drive (gmi_next (mview_source v)) gmi_len k (gmi_from (mview_source v) rm data)) =
+  map (fun j => cexpected (rows * cols)
+                 (fun q => let p := mi_place rm rows cols q in (p, mo_get (mview_source v) data p))
+                 (N.of_nat j)) (seq 0 k)
+  /\ gmi_len (gmi_from (mview_source v) rm data) = rows * cols
+  /\ forall q, q < rows * cols ->
+       exists x, mo_get (mview_source v) data (mi_place rm rows cols q) = Some x /\
+                 read data (try_get v (fst (mi_place rm rows cols q)) (snd (mi_place rm rows cols q))) = Ok (Some x).
+Proof. exact @mview_major_iter. Qed.
+
+(* mutable iterators over any stack on a matrix or a partition part: the references of any prefix
+   point at pairwise distinct cells of the root (C12's stack injectivity / partition disjointness) *)
+Theorem C09_c12_stack_mut_distinct_cells : forall (T : Type) rows cols v, 1 <= rows ->
+  stack rows cols v -> forall rm (data : list T) k,
+  let places := map fst (somes (map fst (fst (drive (gmi_next (mview_source v)) gmi_len k
+                                                    (gmi_from (mview_source v) rm data))))) in
+  NoDup (map (fun p => try_get v (fst p) (snd p)) places) /\
+  Forall (fun p => exists cell, try_get v (fst p) (snd p) = Cell cell /\ cell < rows * cols) places.
+Proof. exact @mstack_mut_distinct_cells. Qed.
+
+(* owning iterators over such a stack (partition parts included): each original cell of the view
+   is moved out exactly once, placeholders are left at the first k places, the root keeps its size *)
+Theorem C09_c12_stack_owned_moves_once : forall (T : Type) rows cols v, 1 <= rows ->
+  stack rows cols v -> has_mut v = true -> forall (dflt : T) rm (data : list T) k,
+  N.of_nat (length data) = rows * cols ->
+  let r := drive (gmi_next_owned (mview_source v) dflt) gmi_len k (gmi_from (mview_source v) rm data) in
+  fst r = fst (drive (gmi_next (mview_source v)) gmi_len k (gmi_from (mview_source v) rm data)) /\
+  N.of_nat (length (gi_source (snd r))) = rows * cols /\
+  forall q, q < view_rows v * view_cols v ->
+    mo_get (mview_source v) (gi_source (snd r)) (mi_place rm (view_rows v) (view_cols v) q) =
+    if q <? N.of_nat k then Some dflt
+    else mo_get (mview_source v) data (mi_place rm (view_rows v) (view_cols v) q).
+Proof. exact @mstack_owned_moves_once. Qed.
+
+(* --- scripts over the PROVIDED Iterator methods (nth, skip, step_by, take, count, last, fold) ---
+   None of the crate's iterators overrides them: they are the std default functions of next()
+   (Model/IterProg.v: `nth_default` = advance_by(n) then next(); `run_script`).  An override has to
+   be observationally that function — also in what it leaves behind when it runs past the end. *)
+
+(* the iterator families have closed forms: call number q of next() returns E q; E is (None, 0)
+   from `total` on and yields an item before *)
+Theorem C09_iterators_have_closed_forms :
+  (forall sh, closed_form iter_next iter_len (shape_iter_from sh)
+                (fun q => expected (lens_of sh) (N.of_nat q)) (N.to_nat (prod (lens_of sh)))) /\
+  (forall St A (o : tsource St A) (s : St),
+     closed_form (gti_next o) gti_len (gti_from o s)
+       (fun q => let e := expected (lens_of (ts_shape o s)) (N.of_nat q) in
+                 (option_map (fun idx => (idx, ts_get o s idx)) (fst e), snd e))
+       (N.to_nat (prod (lens_of (ts_shape o s))))) /\
+  (forall St A (o : msource St A) rm (s : St),
+     closed_form (gmi_next o) gmi_len (gmi_from o rm s)
+       (fun q => cexpected (mo_rows o s * mo_cols o s)
+                   (fun q => let p := mi_place rm (mo_rows o s) (mo_cols o s) q in (p, mo_get o s p)) (N.of_nat q))
+       (N.to_nat (mo_rows o s * mo_cols o s))) /\
+  (forall St A (o : msource St A) kind fixed n (s : St),
+     closed_form (gli_next o) gli_len (mkGI (mkLC kind fixed (0, n)) s)
+       (fun q => cexpected n (fun q => let p := lc_place (mkLC kind fixed (0, n)) q in (p, mo_get o s p)) (N.of_nat q))
+       (N.to_nat n)).
+Proof.
+  exact (conj shape_iter_closed_form
+        (conj (@gen_tensor_iter_closed_form) (conj (@gen_major_iter_closed_form) (@gen_line_iter_closed_form)))).
+Qed.
+
+(* a program of nth(n1), nth(n2), ... calls returns exactly the closed form at the running
+   positions n1, n1 + n2 + 1, ...: nth(n) IS n + 1 applications of next() (the first n discarded),
+   and a call that runs past the end returns None with length 0 *)
+Theorem C09_nth_program : forall St I (next : St -> option I * St) len s0 E total prog,
+  closed_form next len s0 E total ->
+  fst (drive_prog next len prog s0) = map E (positions prog 0).
+Proof. exact @closed_form_prog. Qed.
+
+(* after ANY script over nth / by_ref().skip / step_by / take (and the terminal count / last /
+   fold) the iterator is where some number m' of plain next() calls would have left it: further
+   next() calls return E m', E (m' + 1), ... — the exact lengths and "None forever after
+   exhaustion" of the closed form hold at every point of every such history *)
+Theorem C09_after_any_script_exact_and_fused : forall St I (next : St -> option I * St) len s0 E total script,
+  closed_form next len s0 E total ->
+  exists m', forall k, fst (drive next len k (snd (run_script next len script s0))) = map E (seq m' k).
+Proof. exact @closed_form_after_script. Qed.
+
+Example C09_nonvacuous_scripts :
+  (* D = 0: nth(1) on a fresh scalar iterator returns None and leaves it exhausted *)
+  fst (run_script iter_next iter_len [PNth 1; PNth 0] (shape_iter_from [])) = [OItem None 0; OItem None 0] /\
+  (* 2x2: nth(4) runs exactly past the end; nth(1), step_by(2) x2, then count *)
+  fst (run_script iter_next iter_len [PNth 4; PNth 0] (shape_iter_from [(0%nat, 2); (1%nat, 2)])) =
+    [OItem None 0; OItem None 0] /\
+  fst (run_script iter_next iter_len [PNth 1; PStepBy 2 2; PCount] (shape_iter_from [(0%nat, 2); (1%nat, 3)])) =
+    [OItem (Some [0; 1]) 4; OItems 7 [[0; 2]; [1; 1]] 1; OCount 1] /\
+  positions [1; 0; 2]%nat 0 = [1; 2; 5]%nat.
+Proof. vm_compute. repeat split; reflexivity. Qed.
+
+(* non-vacuity: a TensorIndex over a TensorStack of two 2x2 leaves (view shape 2x2: selecting
+   the second leaf), iterated by the owning iterator for 3 calls; and the bottom-right quadrant of
+   a 3x3 matrix reversed, iterated column-major *)
+Example C09_nonvacuous_any_source :
+  (exists c, Views.v_ctor (Views.VIndex (Views.VStack [Views.VTensor 1 [(0%nat, 2); (1%nat, 2)];
+                                                        Views.VTensor 2 [(0%nat, 2); (1%nat, 2)]] 0 7%nat)
+                                        [(7%nat, 1)]) = Ok c /\
+     Views.c_shape c = [(0%nat, 2); (1%nat, 2)] /\ C02P.usize_view c /\ NoDup (C02Inj.leaf_ids c) /\
+     let st : N * N -> option Z := fun e => Some (Views.leaf_value e) in
+     covers c st /\
+     map fst (fst (drive (gti_next_owned (cview_source c) 0%Z) gti_len 3 (gti_from (cview_source c) st))) =
+       [Some ([0; 0], Some 2000%Z); Some ([0; 1], Some 2001%Z); Some ([1; 0], Some 2002%Z)]) /\
+  (exists parts p, partition 3 3 [1] [1] = Ok parts /\ nth_error parts 3 = Some p /\
+     let v := VReverse true false (VPart p) in
+     stack 3 3 v /\ has_mut v = true /\ (view_rows v, view_cols v) = (2, 2) /\
+     fst (drive (gmi_next (mview_source v)) gmi_len 5 (gmi_from (mview_source v) false [1; 2; 3; 4; 5; 6; 7; 8; 9]%Z)) =
+       [(Some ((0, 0), Some 8%Z), 3); (Some ((1, 0), Some 5%Z), 2); (Some ((0, 1), Some 9%Z), 1);
+        (Some ((1, 1), Some 6%Z), 0); (None, 0)]).
+Proof.
+  split.
+  - eexists. split; [vm_compute; reflexivity|]. split; [reflexivity|]. split; [vm_compute; tauto|].
+    split; [vm_compute; constructor; [intros [H|[]]; discriminate|constructor; [intros []|constructor]]|].
+    cbv zeta. split; [intros l n off _ _; eexists; reflexivity|]. vm_compute. reflexivity.
+  - eexists. eexists. split; [vm_compute; reflexivity|]. split; [reflexivity|]. cbv zeta.
+    split; [apply st_reverse; apply (st_part 3 3 [1] [1] _ _ eq_refl); vm_compute; tauto|].
+    split; [reflexivity|]. split; [reflexivity|]. vm_compute. reflexivity.
+Qed.
+
 Print Assumptions C09_odometer_step.
 Print Assumptions C09_shape_iter_enumerates.
 Print Assumptions C09_enumeration_is_row_major.
@@ -328,3 +658,26 @@ Print Assumptions C09_matrix_source_lens.
 Print Assumptions C09_matrix_source_total.
 Print Assumptions C09_wf_matrix_owned_moves_once.
 Print Assumptions C09_matrix_owned_empty.
+Print Assumptions C09_any_source_tensor_iter_enumerates.
+Print Assumptions C09_any_source_tensor_iter_len_after_k.
+Print Assumptions C09_any_source_with_index_true.
+Print Assumptions C09_any_source_with_index_true_owned.
+Print Assumptions C09_any_source_places.
+Print Assumptions C09_any_source_owned_moves_once.
+Print Assumptions C09_term_iterators_are_instances.
+Print Assumptions C09_c02_view_iter_enumerates.
+Print Assumptions C09_c02_view_len_after_k.
+Print Assumptions C09_c02_view_mut_distinct_elements.
+Print Assumptions C09_c02_view_meets_mut_contract.
+Print Assumptions C09_c02_view_owned_moves_once.
+Print Assumptions C09_any_source_major_iter.
+Print Assumptions C09_any_source_line_iter.
+Print Assumptions C09_any_source_major_with_index_true.
+Print Assumptions C09_any_source_major_with_index_true_owned.
+Print Assumptions C09_any_source_matrix_owned_moves_once.
+Print Assumptions C09_c12_view_major_iter.
+Print Assumptions C09_c12_stack_mut_distinct_cells.
+Print Assumptions C09_c12_stack_owned_moves_once.
+Print Assumptions C09_iterators_have_closed_forms.
+Print Assumptions C09_nth_program.
+Print Assumptions C09_after_any_script_exact_and_fused.
